@@ -538,6 +538,49 @@ def boolop_short_circuit(fi, a, b, want):
     return True, ''
 
 
+def boolop_by_evaluation(repo, fi, is_and):
+    """The payload of `and` / `or` evaluated abstractly with its two lazy
+    operands as uninterpreted thunks, for every kind of left value: the
+    left operand is evaluated exactly once; the right one exactly once when
+    the left value does not settle the result and not at all when it does;
+    the result is the operand that settled it.  (None, why) if the body is
+    outside the modelled fragment."""
+    from sa import absint
+    ps = fi.params()
+    for lv in (True, False, 0, 1, '', 'x', None):
+        calls = []
+        R = absint.Sym('value-of-right')
+
+        def oracle(callee, args, kwargs):
+            if callee == 'thunk-left':
+                calls.append('left')
+                return (lv,)
+            if callee == 'thunk-right':
+                calls.append('right')
+                return (R,)
+            return None
+        it = absint.Interp(repo, fi.module, oracle)
+        try:
+            out = it.run(fi.node, {ps[0]: absint.Sym('thunk-left'),
+                                   ps[1]: absint.Sym('thunk-right')})
+        except absint.Unsupported as e:
+            return None, str(e)
+        settles = (not lv) if is_and else bool(lv)
+        want_calls = ['left'] if settles else ['left', 'right']
+        want = lv if settles else R
+        if calls != want_calls:
+            return False, 'with a left value of %r the operands are ' \
+                'evaluated as %s, expected %s' % (lv, calls, want_calls)
+        got = out[1] if out[0] == 'return' else out
+        same = got is want if isinstance(want, (absint.Sym, bool,
+                                                type(None))) else \
+            got == want and type(got) is type(want)
+        if not same:
+            return False, 'with a left value of %r the result is %r, ' \
+                'expected %r' % (lv, got, want)
+    return True, ''
+
+
 def check_r11d(repo, rep, uni):
     reg = uni.reg
     bo = repo.module('yaql.standard_library.boolean')
@@ -547,7 +590,9 @@ def check_r11d(repo, rep, uni):
     for q in ('and_', 'or_'):
         fi = bo.func(q)
         ps = fi.params()
-        ok, why = boolop_short_circuit(fi, ps[0], ps[1], q == 'and_')
+        ok, why = boolop_by_evaluation(repo, fi, q == 'and_')
+        if ok is None:
+            ok, why = boolop_short_circuit(fi, ps[0], ps[1], q == 'and_')
         n += 1
         rep.ob('R11d', fi.key + '/short-circuit', ok,
                '`%s` must evaluate its right operand only when the left '
